@@ -249,6 +249,12 @@ func randWireOp(a *aspec.ASpec, k int, rng *rand.Rand) wireOp {
 		params = append(params, aspec.Param{In: "query", Name: n, Req: req, Schema: s, Attrs: attrs})
 		ds = append(ds, decl{In: "query", Name: n, Type: typ, Array: arr, Req: req, Joined: joined})
 	}
+	if k%8 == 7 {
+		// every eighth operation has a plain list-of-strings query parameter whatever the draws above gave
+		str := aspec.Schema{K: "string"}
+		params = append(params, aspec.Param{In: "query", Name: "tags", Req: k%16 == 7, Schema: aspec.Schema{K: "array", Items: &str}})
+		ds = append(ds, decl{In: "query", Name: "tags", Type: "string", Array: true, Req: k%16 == 7})
+	}
 	hnames := []string{"X-Request-Id", "x-trace", "If-Version"}
 	rng.Shuffle(len(hnames), func(i, j int) { hnames[i], hnames[j] = hnames[j], hnames[i] })
 	for _, n := range hnames[:rng.Intn(3)] {
